@@ -95,3 +95,23 @@ func RecoverPlain(sighash common.Hash, R, S, Vb interface{}, homestead bool) (co
 	}
 	panic("model: recoverPlain of an unregistered signature hash")
 }
+
+// vauth ownership-proof signature check (Keccak + secp256k1 recovery) as an uninterpreted predicate: the harness
+// registers which address the signature bytes are a valid signature for.
+var (
+	VauthSigValidFor common.Address
+	VauthSigErr      bool
+)
+
+func VauthVerifySignature(address common.Address, signature []byte, message string) (bool, error) {
+	if len(signature) == 0 {
+		panic("signature cannot be empty")
+	}
+	if message == "" {
+		panic("message cannot be empty")
+	}
+	if VauthSigErr {
+		return false, ethtypes.ErrInvalidSig
+	}
+	return address == VauthSigValidFor, nil
+}
